@@ -292,7 +292,7 @@ def subchecks(tier, seed):
     thorough = tier == 'thorough'
     subs = []
     names = [c + s for c in CORE for s in ('', '+ban')]
-    Fs = (1, 2, 3, 5, 32) if thorough else (1, 3, 5)
+    Fs = (1, 2, 3, 5, 32) if thorough else (1, 3, 5, 32)
 
     def name_cases():
         for seed in seeds_:
@@ -304,6 +304,8 @@ def subchecks(tier, seed):
                                 for nlead in (0, 1, 2):
                                     if D == 8 and (atfk != 'default' or nlead == 2 or (F > 3 and not thorough)):
                                         continue      # the largest D of the stated range: default options only
+                                    if F == 32 and not thorough and (D != 2 or nlead == 2 or atfk != 'default'):
+                                        continue      # the largest F of the stated range
                                     core = name[:-4] if name.endswith('+ban') else name
                                     if atfk == 'freqdep' and (core.split('+')[-1] != 'wmwf' or ref is None):
                                         continue
